@@ -26,7 +26,8 @@ WINDS = {
     'head': [(10.0, 180.0, None)],
     'tail': [(10.0, 0.0, None)],
     'left': [(10.0, 90.0, None)],
-    'tail30': [(30.0, 0.0, None)],       # strong tail wind: the ground advance per step exceeds the air-relative step
+    'tail30': [(30.0, 0.0, None)],
+    'head30': [(30.0, 180.0, None)],       # strong tail wind: the ground advance per step exceeds the air-relative step
     'two': [(8.0, 90.0, 200.0), (12.0, 270.0, 500.0)],     # (mph, from degrees, until feet)
     'two_unsorted': [(12.0, 270.0, 500.0), (8.0, 90.0, 200.0)],
     'head_then_tail': [(20.0, 180.0, 300.0), (20.0, 0.0, None)],     # segment boundary short of typical zero distances
@@ -68,8 +69,12 @@ def spy_filter():
     orig = tc._TrajectoryDataFilter.should_record
     rec = []
 
-    def should_record(self, position, velocity, mach, time):
-        data = orig(self, position, velocity, mach, time)
+    def should_record(self, *a, **k):
+        # pass-through with a generic signature (a change may add optional arguments); the first four are position, velocity, mach, time
+        data = orig(self, *a, **k)
+        position, velocity, mach, time = (list(a) + [k.get('position'), k.get('velocity'), k.get('mach'), k.get('time')])[:4] if len(a) >= 4 else \
+            (k.get('position', a[0] if len(a) > 0 else None), k.get('velocity', a[1] if len(a) > 1 else None),
+             k.get('mach', a[2] if len(a) > 2 else None), k.get('time', a[3] if len(a) > 3 else None))
         rec.append({'t': time, 'p': position, 'v': velocity, 'a': mach, 'flag': self.current_flag, 'data': data})
         return data
     tc._TrajectoryDataFilter.should_record = should_record
